@@ -42,6 +42,7 @@ func (w *World) FeedMsg() sdk.Msg {
 		{Asset: "USDC", Price: math.LegacyOneDec(), Source: "elys"},
 		{Asset: "ATOM", Price: Dec(w.Env.Atom), Source: "elys"},
 		{Asset: "ELYS", Price: Dec(w.Env.Elys), Source: "elys"},
+		{Asset: "WETH", Price: Dec(VoucherPrice), Source: "elys"},
 	}}
 }
 
@@ -85,6 +86,8 @@ func NewWorld(cfg FixtureCfg) *World {
 			app.AssetprofileKeeper.SetEntry(ctx, atypes.Entry{BaseDenom: d[0], Denom: d[0], Decimals: 6, DisplayName: d[1], CommitEnabled: true, WithdrawEnabled: true, Authority: gov})
 			app.OracleKeeper.SetAssetInfo(ctx, oracletypes.AssetInfo{Denom: d[0], Display: d[1], Decimal: 6})
 		}
+		app.AssetprofileKeeper.SetEntry(ctx, atypes.Entry{BaseDenom: VoucherBase, Denom: VoucherDenom, Decimals: 18, DisplayName: "WETH", CommitEnabled: true, WithdrawEnabled: true, Authority: gov})
+		app.OracleKeeper.SetAssetInfo(ctx, oracletypes.AssetInfo{Denom: VoucherDenom, Display: "WETH", Decimal: 18})
 		for _, d := range []string{"ueden", "uedenb"} {
 			app.AssetprofileKeeper.SetEntry(ctx, atypes.Entry{BaseDenom: d, Denom: d, Decimals: 6, DisplayName: d, CommitEnabled: true, WithdrawEnabled: true, Authority: gov})
 		}
@@ -234,6 +237,10 @@ func BuildRoot(w *World, root string, lib *OpLib) {
 		// ALIASED ASSETS: an outsider registered second asset-profile entries naming each fixture asset (18 decimals,
 		// base denoms that sort first), and the ELYS price of the constant-product pool crashed below 0.5 USDC
 		prefix = []string{"perp_open_long_t1", "perp_open_short_t2", "llp_open_t1_x3", "swap_in_p1_usdc_atom_L", "swap_in_p2_elys_usdc_L", "gap_1d", "mc_claim_lp1", "commit_eden_lp1", "vest_eden_lp1", "stake_elys_lp1", "ap_alias_entry_uusdc_18dec_t3", "ap_alias_entry_uatom_18dec_t3", "ap_alias_entry_uelys_18dec_t3", "swap_in_p2_elys_usdc_XXL"}
+	case "R23":
+		// VOUCHER VENUE: R1 plus a constant-product pool of the IBC voucher (WETH, 18 decimals, profile Denom !=
+		// BaseDenom) against uusdc, pending spot orders in the voucher whose triggers the ORACLE price does not meet
+		prefix = []string{"perp_open_long_t1", "perp_open_short_t2", "llp_open_t1_x3", "swap_in_p1_usdc_atom_L", "swap_in_p2_elys_usdc_L", "gap_1d", "mc_claim_lp1", "commit_eden_lp1", "vest_eden_lp1", "stake_elys_lp1", "v5_create_lp1", "ts_spot_limitsell_weth_unmet_own1", "ts_spot_stoploss_weth_unmet_own2", "ts_spot_limitbuy_weth_unmet_own1", "gap_61m"}
 	case "R20":
 		// MANY BLOCKS: R3 (leveraged-LP sweep off, so nothing touches the open positions' debts) followed by
 		// 1000 ordinary blocks — counters, indices and "last touched at height" fields are a thousand blocks old
